@@ -360,9 +360,9 @@ Print Assumptions C14_decorator_found.
 Theorem C14_sethelper_then_local : forall reg d s1 p rest name,
   dv_params d = p :: rest -> pj_value p = JStr name ->
   exists s', apply_decorator DSetHelper d s1 = ROk tt s' /\
-    s' = set_local_helpers s1 (map_insert (s_local_helpers s1) name (HLocal name)) /\
-    find_local_helper s' name = Some (HLocal name) /\
-    (forall block, resolve_helper reg s' name block = Some (HLocal name)) /\
+    s' = set_local_helpers s1 (map_insert (s_local_helpers s1) name (HLocal (sethelper_tag d name))) /\
+    find_local_helper s' name = Some (HLocal (sethelper_tag d name)) /\
+    (forall block, resolve_helper reg s' name block = Some (HLocal (sethelper_tag d name))) /\
     helper_exists reg s' name = true.
 Proof. exact sethelper_then_local. Qed.
 Print Assumptions C14_sethelper_then_local.
